@@ -931,6 +931,18 @@ func c04CorrelationClient(w *World, r *Report, rule string, sites []connectSite)
 					guard = true
 				}
 			}
+			// ... or read from a constant scheme table in which every entry that says 'secure' is keyed by a TLS scheme
+			if entries, field, _ := tableFieldLookup(w, e.State.Resolve(secArg)); entries != nil && !guard {
+				allTls := true
+				for _, en := range entries {
+					if sec, ok := en.Fields[field]; ok && sec.Kind() == constant.Bool && constant.BoolVal(sec) {
+						if en.Key != "https" && en.Key != "wss" && !strings.HasSuffix(en.Key, "+tls") {
+							allTls = false
+						}
+					}
+				}
+				guard = allTls
+			}
 			if !guard {
 				schemeGuarded = false
 				bad = "secure=true reaches NewClientConnection on a path where the carrier does not come from a TLS primitive (tls.Dial / tls.Client) and no +tls/https/wss scheme test holds: StartTLS is then skipped on a plaintext carrier"
